@@ -155,6 +155,18 @@ CLAIMED = {
          "Contours <= 4 points exhaustively; accumulated deltas kept inside the scaler's 16.16 range for the drawing check.",
     technique="TLA+ IUP inference + packed-run decoders; TLC-enumerated cases replayed on the optimiser; trace validation of compiled gvar data",
     design="4/C10"),
+ "C16": dict(
+    category="model_checking",
+    text="Layout.tla gives the reader semantics of Coverage/ClassDef formats 1 and 2, PairPos formats 1 and 2 and MarkBasePos "
+         "over a list of subtables, and the meaning of a rule set. TLC proves the splitting step semantics-preserving on a "
+         "scaled model and enumerates all subsets of a boundary glyph alphabet for the coverage / class builders. Compiled "
+         "GPOS tables (small: fully dumped and evaluated by the specification; several times 64 KiB: split + extension "
+         "promotion, evaluated by a walker that is itself validated against the specification) are compared with the rules "
+         "for every listed pair and its neighbours.",
+    note="Trusted: TLC, serde_json, read-fonts' raw field getters used to dump subtables. Value records limited to "
+         "xAdvance/xPlacement/xAdvance-device, anchors to formats 1 and 3; big lookups judged by the validated walker.",
+    technique="TLA+ lookup semantics; TLC-enumerated glyph sets replayed on the builders; trace validation of compiled GPOS lookups incl. split/extension",
+    design="4/C16"),
 }
 
 NOT_APPLICABLE = {
